@@ -116,6 +116,9 @@ type Script struct {
 	DataHook func(t Txn) *smtp.SMTPError
 	// DropAt: close the connection instead of answering at this stage ("mail","rcpt","data")
 	DropAt string
+	// Drop, when set, is asked at every stage ("mail","rcpt","data","status"; arg as for Reply)
+	// whether the connection is to be closed instead of answering.
+	Drop func(stage, arg string) bool
 }
 
 // Txn is one transaction as seen by the server.
@@ -309,7 +312,7 @@ type session struct {
 }
 
 func (se *session) reply(stage, arg string) error {
-	if se.s.script.DropAt == stage {
+	if se.s.script.DropAt == stage || (se.s.script.Drop != nil && se.s.script.Drop(stage, arg)) {
 		se.conn.Close()
 		return &smtp.SMTPError{Code: 421, EnhancedCode: smtp.EnhancedCode{4, 0, 0}, Message: "dropping"}
 	}
@@ -387,6 +390,20 @@ func (se *session) LMTPData(r io.Reader, sc smtp.StatusCollector) error {
 		return err
 	}
 	ok := false
+	if se.s.script.Drop != nil {
+		// the connection is lost after the content was sent and before any
+		// per-recipient reply (nothing is delivered by this transaction)
+		lost := false
+		for _, r := range rc {
+			if se.s.script.Drop("status", r) {
+				lost = true
+			}
+		}
+		if lost {
+			se.conn.Close()
+			return &smtp.SMTPError{Code: 421, EnhancedCode: smtp.EnhancedCode{4, 0, 0}, Message: "dropping"}
+		}
+	}
 	for _, r := range rc {
 		var e error
 		if se.s.script.Reply != nil {
